@@ -169,3 +169,23 @@ pub fn c13__witness_interpolate_zero_x() {
     assert!(p.len() == 2, "VERIF-FINDING");
     core::mem::forget(p);
 }
+
+//@ harness=c13__div_cubic_by_linear tier=quick kind=prove cap=1200 :: div of a 4-coefficient dividend (degree 3, including zero interior coefficients) by a monic linear divisor x - c: quotient q (3 coefficients) satisfies a == q*(x - c) + a(c) coefficient-wise, for all a and c
+#[kani::proof]
+#[kani::unwind(8)]
+#[kani::stub(alloc::fmt::format, no_fmt)]
+pub fn c13__div_cubic_by_linear() {
+    let a: [F17; 4] = kani::any();
+    kani::assume(a[3] != F17::ZERO);
+    let c: F17 = kani::any();
+    let q = polynom::div(&a, &[-c, F17::ONE]);
+    assert_eq!(q.len(), 3);
+    let r = ev(&a, c);
+    // (q0 + q1 x + q2 x^2)(x - c) + r
+    assert!(a[3] == q[2]);
+    assert!(a[2] == q[1] - c * q[2]);
+    assert!(a[1] == q[0] - c * q[1]);
+    assert!(a[0] == r - c * q[0]);
+    kani::cover!(q[1] == F17::ZERO && q[0] != F17::ZERO, "VERIF-COVER a zero coefficient inside the quotient");
+    core::mem::forget(q);
+}
